@@ -163,7 +163,30 @@ func Ne(a, b Term) Term        { return Not(Eq(a, b)) }
 func Ite(c, a, b Term) Term    { return App("ite", a.Sort, c, a, b) }
 func Add(a, b Term) Term       { return App("+", SInt, a, b) }
 func Sub(a, b Term) Term       { return App("-", SInt, a, b) }
-func Mul(a, b Term) Term       { return App("*", SInt, a, b) }
+func Mul(a, b Term) Term       { return App(mulOp(a, b), SInt, a, b) }
+
+// mulOp: a product of two non-literal terms is kept out of the arithmetic theory (an
+// uninterpreted "imul" with a few true axioms): nonlinear terms make the solvers time out,
+// and nothing here needs more about such a product than the axioms state.
+func mulOp(a, b Term) string {
+	lit := func(t Term) bool {
+		s := strings.TrimSpace(t.S)
+		s = strings.TrimPrefix(strings.TrimSuffix(strings.TrimPrefix(s, "(- "), ")"), "-")
+		if s == "" {
+			return false
+		}
+		for _, c := range s {
+			if c < '0' || c > '9' {
+				return false
+			}
+		}
+		return true
+	}
+	if lit(a) || lit(b) {
+		return "*"
+	}
+	return "imul"
+}
 func Le(a, b Term) Term        { return App("<=", SBool, a, b) }
 func Lt(a, b Term) Term        { return App("<", SBool, a, b) }
 func Ge(a, b Term) Term        { return App(">=", SBool, a, b) }
